@@ -97,3 +97,32 @@ def free_operands(tr, kinds):
                  "ncons": len(cons), "awire": wires[0], "bwire": wires[1], "cwire": wires[2],
                  "readyidx": [[j + 1 for j, r in enumerate(readyat) if r == k + 1] for k in range(len(order))]})
     return inst
+
+
+def refix(inst, fixpub, fixpriv):
+    """Fix the first fixpub public / fixpriv private wires of an instance (honest values); recompute the search order."""
+    # rebuild the full allocation order of the wires that were free
+    order = list(inst["order"])
+    np_, nq_ = inst["fixpub"], inst["fixpriv"]
+    keep = []
+    for o in order:
+        if o == "pub":
+            np_ += 1
+            if np_ > fixpub:
+                keep.append(o)
+        else:
+            nq_ += 1
+            if nq_ > fixpriv:
+                keep.append(o)
+    inst = dict(inst, fixpub=max(fixpub, inst["fixpub"]), fixpriv=max(fixpriv, inst["fixpriv"]), order=keep)
+    posof, np_, nq_ = {}, inst["fixpub"], inst["fixpriv"]
+    for k, o in enumerate(keep):
+        if o == "pub":
+            np_ += 1
+            posof[np_] = k + 1
+        else:
+            nq_ += 1
+            posof[-nq_] = k + 1
+    readyat = [max([0] + [posof.get(w, 0) for lc in con for w, _c in lc]) for con in inst["cons"]]
+    inst["readyidx"] = [[j + 1 for j, r in enumerate(readyat) if r == k + 1] for k in range(len(keep))]
+    return inst
